@@ -228,8 +228,13 @@ func c11(c *Ctx) {
 			continue
 		}
 		r.Fn(core.FuncName(fn))
+		per := map[string]int{}
 		for _, s := range core.PanicSites(p, fn) {
 			construct := fmt.Sprintf("%s %s %s", core.FuncName(fn), s.Kind, s.Desc)
+			per[construct]++
+			if per[construct] > 1 {
+				construct += fmt.Sprintf(" #%d", per[construct])
+			}
 			if s.Discharged {
 				r.OK("R-C11.4", construct, p.Pos(s.Instr.Pos()), s.Why)
 				continue
